@@ -1123,9 +1123,17 @@ pub fn c17(g: &mut Gen) {
         for inskips in [false, true] {
             for iters in 2..=3usize {
                 if !g.ctx.thorough() && iters == 3 && inskips { continue; }
-                let cl = ArchCfg { wscale: 0.9, acts: vec!["linear"], ..ArchCfg::small() };
-                let builds = vec![Build::Layer(dense_spec(g, &cl, 3, 3, "linear", false)), Build::Layer(dense_spec(g, &cl, 3, 3, "relu", false)),
-                    Build::Layer(dense_spec(g, &cl, 3, 3, "linear", false)), Build::Layer(dense_spec(g, &cl, 3, 2, "linear", false)),
+                // one non-zero weight per row (a scaled permutation): every output is ONE product, so the result does not
+                // depend on the order in which a row's terms are summed — the comparison can be bit for bit
+                let pd = |g: &mut Gen, perm: [usize; 3], act: &str| -> InnerSpec {
+                    let vals: Vec<f32> = (0..3).map(|_| { let v = g.rng().uniform(0.6, 1.4); if g.rng().below(4) == 0 { -v } else { v } }).collect();
+                    InnerSpec::Dense { out: 3, act: act.into(), bias: false, dropout: None,
+                        w: Tensor::double((0..3).map(|r| (0..3).map(|c| if perm[r] == c { vals[r] } else { 0.0 }).collect()).collect()), b: None }
+                };
+                let last = InnerSpec::Dense { out: 2, act: "linear".into(), bias: false, dropout: None,
+                    w: Tensor::double(vec![vec![0.0, 1.25, 0.0], vec![-0.75, 0.0, 0.0]]), b: None };
+                let builds = vec![Build::Layer(pd(g, [1, 2, 0], "linear")), Build::Layer(pd(g, [2, 0, 1], "relu")),
+                    Build::Layer(pd(g, [0, 2, 1], "linear")), Build::Layer(last),
                     Build::Loopback { outof: 2, into: 1, iterations: iters, scale: "inv".into(), inskips }];
                 let net = NetSpec { input: Shape::Single(3), builds, skipacc: "add".into(), loopacc: acc.to_string(), opt: None, obj: "mse".into(), clamp: None };
                 for scale in [1e-6f32, 1e-9, 1.0] {
